@@ -126,6 +126,10 @@ def closed_country(b, rng, m, code, T, opts):
         h['gov'] = b.sector('ConsolidatedGovernment', c, GOV)
         govcode = GOV
     h['govcode'] = govcode
+    if not gold and rng.random() < 0.08:
+        # the program re-declares the government's tax variable itself (an idiom of the bundled example scripts); the
+        # tax flow defines it anyway
+        b.add({'op': 'AddVariable', 'sector': h['gov'], 'name': 'T', 'eqn': rng.choice(['0.', '0.', '0', '0.00'])})
     good_kw = GOOD if GOOD != 'GOOD' else None
     lab_kw = LAB if LAB != 'LAB' else None
     h['hh'] = add_household(b, rng, c, HH, variant=opts.get('hh_variant'), good=good_kw, labour=lab_kw, on_grid=on_grid)
@@ -205,6 +209,13 @@ def closed_country(b, rng, m, code, T, opts):
                 eq = 'L0'
             b.add({'op': 'AssetWeighting', 'sector': h['hh'], 'weights': [['DEP', eq]], 'residual': 'MON',
                    'as_dict': rng.random() < 0.5})
+        elif rng.random() < 0.3:
+            # deposit holdings given as an exogenous path: declared with the zero placeholder, filled in by main()
+            b.add({'op': 'AddVariable', 'sector': h['hh'], 'name': 'DEM_DEP', 'eqn': rng.choice(['0.0', ''])})
+            # (no holdings at k=0: a k=0 holding would have no counterpart on the issuer's books, whose supply of the
+            # asset is endogenous and starts at zero)
+            set_exo(b, rng, h['hh'], 'DEM_DEP', [0.0] + path(rng, T, 0.5, 4.0, digits=2)[1:])
+            b.add({'op': 'AddVariable', 'sector': h['hh'], 'name': 'DEM_MON', 'eqn': 'F - DEM_DEP'})
         else:
             frac = round(rng.uniform(0.2, 0.8), 2)
             b.add({'op': 'AddVariable', 'sector': h['hh'], 'name': 'DEM_DEP', 'eqn': '%s * F' % repr(frac)})
